@@ -253,32 +253,33 @@ def partitions(tier, seed):
     import itertools
     L = (0, 1, 2) if q else (0, 1, 2, 3)
     for n in ((1, 2, 3) if q else (1, 2, 3, 4)):
-        for lens in itertools.product(L, repeat=n):
+        Ln = L if (q or n <= 2) else ((0, 1, 2) if n == 3 else (0, 1))
+        for lens in itertools.product(Ln, repeat=n):
             if q and (sum(lens) > 4 or (n == 3 and max(lens) > 1 and sum(lens) > 3)):
                 continue
-            if not q and sum(lens) > 7:
+            if not q and sum(lens) > 6:
                 continue
             if lens == (0,):
                 continue
             P.append(dict(name="codec/%s" % "-".join(map(str, lens)), harness="h_codec", params=dict(n=n, lens=list(lens)),
-                          budget=60 if q else 900, reach=[], bounds="%d lines of exactly %s arbitrary characters" % (n, list(lens))))
+                          budget=60 if q else 400, reach=[], bounds="%d lines of exactly %s arbitrary characters" % (n, list(lens))))
     for n in (0, 1, 2) if q else (0, 1, 2, 3):
-        for lens in itertools.product((0, 1, 2) if q else (0, 1, 2, 3), repeat=n + 1):
+        for lens in itertools.product((0, 1, 2) if (q or n >= 2) else (0, 1, 2, 3), repeat=n + 1):
             if sum(lens) > (3 if q else 6) or (n and lens[-1] == 0):
                 continue
             P.append(dict(name="license/%s" % "-".join(map(str, lens)), harness="h_license", params=dict(n=n, lens=list(lens)),
-                          budget=60 if q else 900, reach=[], bounds="synopsis + %d text lines, lengths %s" % (n, list(lens))))
+                          budget=60 if q else 400, reach=[], bounds="synopsis + %d text lines, lengths %s" % (n, list(lens))))
     for n in (0, 1, 2, 3):
-        for lens in itertools.product((0, 1, 2) if q else (0, 1, 2, 3), repeat=n):
+        for lens in itertools.product((0, 1, 2) if (q or n >= 3) else (0, 1, 2, 3), repeat=n):
             if sum(lens) > (3 if q else 6):
                 continue
             for hname in ("h_space", "h_linebased"):
                 P.append(dict(name="%s/%s" % (hname[2:], "-".join(map(str, lens)) or "empty"), harness=hname, params=dict(n=n, lens=list(lens)),
-                              budget=60 if q else 900, reach=[], bounds="tuple of %d values, lengths %s" % (n, list(lens))))
+                              budget=60 if q else 400, reach=[], bounds="tuple of %d values, lengths %s" % (n, list(lens))))
     holes = [("pat",), ("cp1",), ("cp2",), ("syn",), ("lt1",), ("lt2",), ("uname",), ("pat2",)]
     if not q:
         holes += [("pat", "lt1"), ("cp2", "lt2"), ("syn", "cp1"), ("lt1", "lt2")]
-    for shape in (("f1l1",) if q else SHAPES):
+    for shape in (("f1l1",) if q else ("f1l1", "f2l2", "l2", "hdr")):
         if SHAPES[shape]["files"] == 0 and shape != "hdr":
             hs = [h for h in holes if set(h) <= {"syn", "lt1", "lt2", "uname"}]
         elif shape == "hdr":
@@ -286,8 +287,8 @@ def partitions(tier, seed):
         else:
             hs = holes
         for h in hs:
-            for ln in ((1,) if q else (0, 1, 2, 3)):
+            for ln in ((1,) if q else (0, 1, 2)):
                 P.append(dict(name="doc/%s/%s/len%d" % (shape, "+".join(h), ln), harness="h_doc",
-                              params=dict(shape=shape, hole=list(h), lens=[ln] * len(h)), budget=70 if q else 1200, reach=[],
+                              params=dict(shape=shape, hole=list(h), lens=[ln] * len(h)), budget=70 if q else 700, reach=[],
                               bounds="document shape %s, symbolic %s of %d arbitrary characters" % (shape, "+".join(h), ln)))
     return P
